@@ -497,15 +497,19 @@ fn process_tags(
             #[cfg(feature = "verif-hooks")]
             crate::verif::sched_point("tag");
             let idx = idx.clone();
+            let mut pending_id = None;
             let el = if let Some(el) = t.get_element() {
-                // update early so reuse targets are available even if the element
+                // register early so reuse targets are available even if the element
                 // is not ready (e.g. within a specs block)
-                context.update_element(&el);
+                pending_id = context.register_pending(&el);
                 Some(el.clone())
             } else {
                 None
             };
             let gen_result = t.generate_events(context);
+            if let (Ok(_), Some(id)) = (&gen_result, &pending_id) {
+                context.clear_pending(id);
+            }
             // Exceeding a configured limit is fatal rather than a reason to retry: a retry
             // re-runs the element from already-advanced state and may then 'succeed'.
             if let Err(
